@@ -34,15 +34,20 @@ pub struct Ctx {
     pub inner: u64,
     pub verbose: bool,
     pub reproduced: u64,
+    /// canonical (tier- and seed-independent) complexity rank of the current case, if the sub-check defines one
+    pub rank_override: Option<u64>,
     prog: Option<std::fs::File>,
 }
 
 impl Ctx {
     pub fn new(sub: &'static str, property: &str) -> Ctx {
-        Ctx { res: SubResult::new(property, sub), sub, unit: 0, inner: 0, verbose: false, reproduced: 0, prog: None }
+        Ctx { res: SubResult::new(property, sub), sub, unit: 0, inner: 0, verbose: false, reproduced: 0, rank_override: None, prog: None }
     }
     /// rank of the current case in the global enumeration order
     pub fn rank(&self) -> u64 {
+        if let Some(r) = self.rank_override {
+            return r;
+        }
         ((self.unit as u64) << 24) | self.inner.min((1 << 24) - 1)
     }
     /// Record a violation. `kind` names the violated oracle clause (stable); `case` is the complete
@@ -107,6 +112,7 @@ fn worker(args: &Args, k: usize, n: usize) -> ! {
         }
         ctx.unit = idx;
         ctx.inner = 0;
+        ctx.rank_override = None;
         ctx.progress("");
         let r = std::panic::catch_unwind(std::panic::AssertUnwindSafe(|| (plan.run)(idx, &mut ctx)));
         if let Err(p) = r {
